@@ -121,11 +121,10 @@ fn cell<E: Elem, N: ArrayLength>(st: &mut Stats, c: usize, hint: Hint, fused: bo
             if log.polls_after_none > 0 {
                 return Err(format!("PolledAfterNone: source polled {} more time(s) after it returned None", log.polls_after_none));
             }
-            let h0 = log.first_hint;
-            let ruled_out = match h0 {
-                Some((lo, hi)) => lo > n || hi.map(|h| h < n).unwrap_or(false),
-                None => false,
-            };
+            // what the source answers to size_hint() when the collection starts — whether or not
+            // the implementation asks ("a size_hint that already rules N out" is about the source)
+            let h0 = hint.eval(c);
+            let ruled_out = h0.0 > n || h0.1.map(|h| h < n).unwrap_or(false);
             let truthful = hint.truthful(c);
             let fault_reached = panic_at.map(|k| log.polls > k).unwrap_or(false);
             let expect_n = format!("expected {n} items");
